@@ -28,7 +28,7 @@ type gsFact struct {
 
 // gsRelation returns, for the edge `edge` of iff, the relation it establishes between (base) and a bound term, for every
 // way the condition can be read as "base + xk REL bound + yk". bound == nil means a constant bound (then yk is the constant).
-func gsEdgeFacts(iff *ssa.If, edge int, base ssa.Value, a int64, isBound func(ssa.Value) bool) (facts []gsFact, constFacts []gsFact) {
+func gsEdgeFacts(iff *ssa.If, edge int, base ssa.Value, a int64, isBound func(ssa.Value) (bool, int64)) (facts []gsFact, constFacts []gsFact) {
 	neg := isNegated(iff.Cond)
 	bo, ok := stripNot(iff.Cond).(*ssa.BinOp)
 	if !ok {
@@ -102,8 +102,8 @@ func gsEdgeFacts(iff *ssa.If, edge int, base ssa.Value, a int64, isBound func(ss
 			return
 		}
 		yb, yk := linTerm(y)
-		if isBound(yb) {
-			facts = append(facts, mk(yk-xk))
+		if ok, shift := isBound(yb); ok {
+			facts = append(facts, mk(yk+shift-xk))
 		}
 	}
 	try(bo.X, bo.Y, op)
@@ -148,7 +148,7 @@ func spanEndTerm(v ssa.Value, depth int) bool {
 }
 
 func ruleGuardSuffices(c *Ctx) {
-	c.Rule("GUARD-SUFFICES", "Stated-bound rule, packages commonmark and format: for every read s[t] of a slice or string with t = V + a (a an integer constant of either sign), the branches on the way to the read that compare V (plus a constant) with len(s), with the exclusive End of a Span (directly or through an accessor that returns one), or — for a < 0 — with a constant, are collected (a read counted from the end, s[len(s)-k], needs k >= 1 outright) with the edge that dominates the read. If such a comparison bounds t from above, the tightest bound over all of them must give t < bound; if the only comparisons put t at or beyond the bound, or below zero, the read is reached exactly when it is out of range. The rule never asks for a guard that is not there (INDEX-GUARD does, for cursor and look-ahead reads); it reports a guard that is there and is not enough: `>` for `>=`, a dropped +1, `||` for `&&`.")
+	c.Rule("GUARD-SUFFICES", "Stated-bound rule, packages commonmark and format: for every read s[t] of a slice or string with t = V + a (a an integer constant of either sign), the branches on the way to the read that compare V (plus a constant) with len(s) — or the length of the slice s was cut from at a constant offset, s = t[c:] —, with the exclusive End of a Span (directly or through an accessor that returns one), or — for a < 0 — with a constant, are collected (a read counted from the end, s[len(s)-k], needs k >= 1 outright) with the edge that dominates the read. If such a comparison bounds t from above, the tightest bound over all of them must give t < bound; if the only comparisons put t at or beyond the bound, or below zero, the read is reached exactly when it is out of range. The rule never asks for a guard that is not there (INDEX-GUARD does, for cursor and look-ahead reads); it reports a guard that is there and is not enough: `>` for `>=`, a dropped +1, `||` for `&&`.")
 	p := c.P
 	n := 0
 	perFn := map[*ssa.Function]int{}
@@ -201,7 +201,36 @@ func ruleGuardSuffices(c *Ctx) {
 				bi, ok := cl.Call.Value.(*ssa.Builtin)
 				return ok && bi.Name() == "len" && len(cl.Call.Args) == 1 && (cl.Call.Args[0] == s || sameTerm(cl.Call.Args[0], s))
 			}
-			isBound := func(v ssa.Value) bool { return isLen(v) || spanEndTerm(v, 0) }
+			// len of a slice the read slice was cut from, or of a slice cut from it, with constant cut points:
+			// s = t[c:] has len(t) = len(s) + c
+			lenRelated := func(v ssa.Value) (bool, int64) {
+				cl, ok := v.(*ssa.Call)
+				if !ok {
+					return false, 0
+				}
+				bi, ok := cl.Call.Value.(*ssa.Builtin)
+				if !ok || bi.Name() != "len" || len(cl.Call.Args) != 1 {
+					return false, 0
+				}
+				other := cl.Call.Args[0]
+				if sl, ok := s.(*ssa.Slice); ok && sl.High == nil && sl.Low != nil && (sl.X == other || sameTerm(sl.X, other)) {
+					if c, isC := constInt(sl.Low); isC {
+						return true, c
+					}
+				}
+				if sl, ok := other.(*ssa.Slice); ok && sl.High == nil && sl.Low != nil && (sl.X == s || sameTerm(sl.X, s)) {
+					if c, isC := constInt(sl.Low); isC {
+						return true, -c
+					}
+				}
+				return false, 0
+			}
+			isBound := func(v ssa.Value) (bool, int64) {
+				if isLen(v) || spanEndTerm(v, 0) {
+					return true, 0
+				}
+				return lenRelated(v)
+			}
 			var up, lo []gsFact     // against len(s) / span end
 			var cup, clo []gsFact   // against constants
 			var neqs, cneqs []int64 //
@@ -347,5 +376,15 @@ func init() {
 		Control{Name: "crlf-hard-break-trim-needs-two-bytes", Props: []string{"C04"}, File: "inlines.go",
 			Old: "\t\tcase len(spanText) >= 2 && spanText[len(spanText)-2] == '\\r' && spanText[len(spanText)-1] == '\\n':", New: "\t\tcase len(spanText) >= 1 && spanText[len(spanText)-2] == '\\r' && spanText[len(spanText)-1] == '\\n':", Expect: "GUARD-SUFFICES/",
 			Why: "a one-byte text node in front of a hard break would read spanText[-1]"},
+	)
+}
+
+func init() {
+	addControls(
+		Control{Name: "email-autolink-bound-against-outer-slice", Props: []string{"C04"}, File: "inlines.go",
+			Old: "\tif emailEnd := parseEmail(text[1:]); emailEnd >= 0 && 1+emailEnd < len(text) && text[1+emailEnd] == '>' {\n\t\treturn 2 + emailEnd", New: "\taddress := text[1:]\n\tif emailEnd := parseEmail(address); emailEnd >= 0 && emailEnd < len(text) && address[emailEnd] == '>' {\n\t\treturn 2 + emailEnd", Expect: "GUARD-SUFFICES/parseAutolink:read#",
+			Why: "seeded change of round 11: the index moved to the sub-slice, the bound stayed with the outer one"},
+		Control{Name: "neg-email-autolink-address-slice", Props: []string{"C04"}, File: "inlines.go", Negative: true,
+			Old: "\tif emailEnd := parseEmail(text[1:]); emailEnd >= 0 && 1+emailEnd < len(text) && text[1+emailEnd] == '>' {\n\t\treturn 2 + emailEnd", New: "\taddress := text[1:]\n\tif emailEnd := parseEmail(address); emailEnd >= 0 && emailEnd+1 < len(text) && address[emailEnd] == '>' {\n\t\treturn 2 + emailEnd"},
 	)
 }
